@@ -38,6 +38,11 @@ RULE = ('a case = a generated host program (1-3 modules + optionally a second di
         'directories, one name in several directories, trailing slash, no slash, <string>, non-ASCII, backslashes; lines '
         '0, negative, > 256, > 2**31; kinds line / call / return / exception / opcode / c_call / wrong case / empty; more '
         'than half of the events are a tracepoint\'s own location with at most one thing changed. '
+        'A quarter of the loc cases are ERROR-PATH cases (loc-err): a method tracepoint without a name, whose location '
+        'check raises on every event of its file, sits DIRECTLY BEFORE an ordinary tracepoint of that file in '
+        'configuration order and the very first event of the file is the ordinary tracepoint\'s own location; 15% are SCALE '
+        'cases (loc-scale): 20-80 installed tracepoints over 2-6 files, with same-location groups from different '
+        'sources (polled + registered, registered + registered, polled + polled) and events aimed at those. '
         'Non-trivial = at least one effect produced and at least one tracepoint '
         'never reached. Distinct = distinct canonical JSON.')
 TRUSTED = ['CPython 3.12 trace-event discipline (checked against the recorded reference stream on every run: the '
